@@ -183,6 +183,7 @@ def bounded(rep, tier):
         'uclass': '@classmethod\n    def uc(cls, x):\n        return x',
         'uprop': '@property\n    def up(self):\n        return 1',
         'setonly': 'def _set_w(self, v: int) -> None:\n        self._w = v\n    w = property(None, _set_w)',      # a write-only property (no getter) is legal
+        'wrapsdeco': '@passthru\n    def wd(self, x: int) -> int:\n        """orig doc"""\n        return x\n    @staticmethod\n    @passthru\n    def wds(x: int) -> int:\n        return x',   # members that are themselves pass-through wrappers built by another decorator
         'docprop': 'def _get_t(self) -> int:\n        """(internal getter doc)"""\n        return 1\n    def _set_t(self, v: int) -> None:\n        pass\n    t = property(_get_t, _set_t, None, "Public doc of t")\n    wo = property(None, _set_t, doc="Public doc of wo")',   # explicit docstrings
     }
     def meta(v):
@@ -207,7 +208,8 @@ def bounded(rep, tier):
         body = '\n    '.join(MEMBERS[k] for k in combo)
         if dname != 'default': combo = combo + ('conf=' + dname,)
         for nested_mode in (False, True):
-            src = 'from typing import Self, no_type_check\n' + (f'class Outer:\n    class C:\n        _p = 1\n        ' + body.replace('\n', '\n    ') + '\n' if nested_mode else f'class C:\n    _p = 1\n    {body}\n')
+            src = ('from typing import Self, no_type_check\nimport functools\ndef passthru(fn):\n    @functools.wraps(fn)\n    def inner(*a, **k):\n        return fn(*a, **k)\n'
+                   '    inner.__doc__ = "doc edited by the decorator"; inner.tag = 1\n    return inner\n') + (f'class Outer:\n    class C:\n        _p = 1\n        ' + body.replace('\n', '\n    ') + '\n' if nested_mode else f'class C:\n    _p = 1\n    {body}\n')
             def build():
                 import types as _t
                 _CNT[0] += 1; m = _t.ModuleType(f'c13mod{_CNT[0]}'); sys.modules[m.__name__] = m
@@ -269,6 +271,15 @@ def bounded(rep, tier):
                         try: inst.me(object()); fails.append((combo, nested_mode, f'me(object()) {lab}: accepted'))
                         except BeartypeCallHintViolation: pass
                         except Exception as e: fails.append((combo, nested_mode, f'me(object()) {lab}: {type(e).__name__}'))
+                # "exposes the original as __wrapped__": the member the class defined, not something further down its own __wrapped__ chain
+                def inner_func(v): return v.__func__ if isinstance(v, (classmethod, staticmethod)) else v
+                for nm_, old_ in before_members.items():
+                    new_ = vars(CA).get(nm_)
+                    if new_ is old_ or not isinstance(inner_func(old_), type(lambda: 0)) or isinstance(old_, property): continue
+                    cases += 1
+                    if getattr(inner_func(new_), '__wrapped__', None) is not inner_func(old_): fails.append((combo, nested_mode, f'wrapped {type(old_).__name__}: member {nm_}: __wrapped__ of the decorated member is not the member the class defined'))
+                    for attr in ('tag',):
+                        if hasattr(inner_func(old_), attr) and getattr(inner_func(new_), attr, None) != getattr(inner_func(old_), attr): fails.append((combo, nested_mode, f'wrapped {type(old_).__name__}: member {nm_}: function attribute {attr} lost'))
                 U = build(); CU = U.C if nested_mode else U
                 for nm_, vu in vars(CU).items():
                     mu = meta(vu)
